@@ -99,6 +99,13 @@ def simple_get_restriction_tag(document, cls):
     if extends is None:
         return
 
+    # an ancestor that was customized without getting a name of its own is
+    # not published, so it can't be the base: its constraints are among the
+    # attributes of this class anyway.
+    while extends.get_type_name() is cls.Empty \
+                                         and extends.__extends__ is not None:
+        extends = extends.__extends__
+
     simple_type = etree.Element(XSD('simpleType'))
 
     simple_type.set('name', cls.get_type_name())
